@@ -61,6 +61,12 @@ def _extra():
     for n in (1, 300, 600):
         add("loop-countdown16", "short i, t;", "t = 0; for (i = %d; i != 0; i--) t++;" % n, {"expect16": {"t": n, "i": 0}}, "n=%d" % n)
         add("loop-countdown16", "short i, t;", "t = 0; i = %d; while (i != 0) { t++; i--; }" % n, {"expect16": {"t": n, "i": 0}}, "n=%d" % n)
+    # continue / break through a switch
+    for lim in (2, 4):
+        w = sum(2 for x in range(lim) if x != 1) + (1 if lim > 2 else 0)
+        add("continue-in-switch", "unsigned char n;", "n = 0; for (X = 0; X < %d; X++) { switch (X) { case 1: continue; case 2: n++; } n += 2; }" % lim, {"expect": {"n": w}}, "lim=%d" % lim)
+        add("continue-in-switch", "unsigned char n;", "n = 0; X = 0; do { switch (X) { case 1: X = 5; continue; case 2: n++; } X++; } while (X < %d);" % lim, {"expect": {"n": 0}}, "lim=%d" % lim)
+        add("continue-in-switch", "unsigned char n;", "n = 0; X = 0; while (X < %d) { X++; switch (X) { case 1: continue; case 2: break; default: n++; } n += 2; }" % lim, {"expect": {"n": sum((0 if x == 1 else (2 if x == 2 else 3)) for x in range(1, lim + 1))}}, "lim=%d" % lim)
     # if / else and its mirrored form, switch versus if-chain
     for a in (0, 1, 2, 3, 9):
         w = {0: 10, 1: 11, 2: 12}.get(a, 99)
